@@ -4,6 +4,7 @@
 // indexed object graph (logical ids, type names, reference targets); states are deduplicated by a
 // canonical form; each reached state is also saved and reloaded.  See DESIGN.md C06.
 #include "s1.hpp"
+#include "tape.hpp"
 
 #include "ExtraData.hpp"
 
@@ -415,6 +416,100 @@ static std::string run_history(const std::string& init, const std::string& ver, 
 	return err;
 }
 
+
+// ---------- typed phase: every block type keeps its *serialised* references on target ----------
+// Graph: 0 root, 1 node T1, 2 extra data T2, 3 = block X of the type under test, read from an E1 tape whose
+// reference reads alternate between T1 and T2.  The references X serialises are observed through the
+// write-side reference hook (not through the enumerators), before and after each edit; under the
+// renumbering the edit induces (object identity) every reference must still designate the same block,
+// or be gone exactly when its target was deleted.
+static std::vector<uint32_t> written_refs(NiObject* x, NiHeader& hdr) {
+	std::vector<uint32_t> vals;
+	e1::g_ctx.on_ref = [&](void* r, bool w) { if (w) vals.push_back(((NiRef*) r)->index); };
+	std::ostringstream os(std::ios::binary);
+	NiOStream out(&os, &hdr);
+	x->Put(out);
+	e1::g_ctx.on_ref = nullptr;
+	return vals;
+}
+
+static const char* TYPED_OPS[] = {"DeleteBlock(1)", "DeleteBlock(2)", "SetBlockOrder(swap 1,2)", "SetBlockOrder(reverse)", "PrettySortBlocks", "DeleteBlock(0)"};
+
+static bool typed_build(const std::string& type, const e1::VerCfg& vc, NifFile& nif, NiObject*& x) {
+	nif.Create(vc.ver());
+	auto& hdr = nif.GetHeader();
+	nif.AddNode("T1", MatTransform());
+	auto ed = std::make_unique<NiStringExtraData>();
+	ed->name.get() = "T2";
+	nif.AssignExtraData(nif.GetRootNode(), std::move(ed));
+	e1::seed_strings(hdr);
+	e1::Tape tape;
+	tape.ref_cycle = {1, 2};
+	e1::Tape::no_ref_alts = true;
+	std::unique_ptr<NiObject> obj;
+	try { obj = e1::load_block(type, hdr, tape); } catch (std::exception&) { e1::Tape::no_ref_alts = false; return false; }
+	e1::Tape::no_ref_alts = false;
+	if (!obj) return false;
+	std::vector<NiStringRef*> sr;
+	obj->GetStringRefs(sr);
+	for (auto r : sr) r->get() = hdr.GetStringById(r->GetIndex());
+	x = obj.get();
+	uint32_t id = hdr.AddBlock(std::move(obj));
+	nif.GetRootNode()->childRefs.AddBlockRef(id);
+	return true;
+}
+
+static void typed_unit(const std::string& type, const e1::VerCfg& vc, Stats& st) {
+	NifFile base;
+	NiObject* x0 = nullptr;
+	J cj0 = J::obj().set("typed", type).set("version", vc.name);
+	vf::set_inflight(cj0.dump());
+	if (!typed_build(type, vc, base, x0)) { st.add("typed_not_built"); return; }
+	std::vector<uint32_t> L0 = written_refs(x0, base.GetHeader());
+	size_t nonempty = 0;
+	for (auto v : L0) if (v != NIF_NPOS) nonempty++;
+	if (nonempty == 0) { st.add("typed_types_without_references"); return; }
+	st.add("typed_cases_with_references");
+	for (int op = 0; op < 6; op++) {
+		J cj = J(cj0).set("op", TYPED_OPS[op]);
+		vf::set_inflight(cj.dump());
+		NifFile nif;
+		NiObject* x = nullptr;
+		if (!typed_build(type, vc, nif, x)) return;
+		auto& hdr = nif.GetHeader();
+		std::vector<NiObject*> before;
+		for (uint32_t i = 0; i < hdr.GetNumBlocks(); i++) before.push_back(hdr.GetBlock<NiObject>(i));
+		switch (op) {
+			case 0: hdr.DeleteBlock(1u); break;
+			case 1: hdr.DeleteBlock(2u); break;
+			case 2: { std::vector<uint32_t> p = {0, 2, 1, 3}; hdr.SetBlockOrder(p); break; }
+			case 3: { std::vector<uint32_t> p = {3, 2, 1, 0}; hdr.SetBlockOrder(p); break; }
+			case 4: nif.PrettySortBlocks(); break;
+			case 5: hdr.DeleteBlock(0u); break;
+		}
+		std::map<NiObject*, uint32_t> after;
+		for (uint32_t i = 0; i < hdr.GetNumBlocks(); i++) after[hdr.GetBlock<NiObject>(i)] = i;
+		if (!after.count(x)) continue;
+		std::vector<uint32_t> L1 = written_refs(x, hdr);
+		std::multiset<uint32_t> expect, got;
+		for (auto v : L0) {
+			if (v == NIF_NPOS || v >= before.size()) continue;
+			auto it = after.find(before[v]);
+			if (it != after.end()) expect.insert(it->second);
+		}
+		for (auto v : L1) if (v != NIF_NPOS) got.insert(v);
+		st.add("transitions");
+		st.add("typed_transitions");
+		if (expect != got) {
+			std::string a, b;
+			for (auto v : expect) a += std::to_string(v) + " ";
+			for (auto v : got) b += std::to_string(v) + " ";
+			st.violation(std::string("typed:") + type + ":stale-serialised-reference",
+						 vf::strf("%s (%s) after %s: the block writes references {%s}, under the induced renumbering they should be {%s}", type.c_str(), vc.name, TYPED_OPS[op], b.c_str(), a.c_str()), cj);
+		}
+	}
+}
+
 struct Node { std::string init, ver; History h; };
 
 int main(int argc, char** argv) {
@@ -426,6 +521,13 @@ int main(int argc, char** argv) {
 
 	if (!A.replay.empty()) {
 		J c = J::parse(vf::read_file(A.replay))["case"];
+		if (c.has("typed")) {
+			e1::install_hooks();
+			for (auto& v : e1::all_versions()) if (c["version"].str() == v.name) typed_unit(c["typed"].str(), v, top);
+			top.add("states");
+			vf::finish(top);
+			return 0;
+		}
 		History h;
 		for (auto& o : c["history"].a) h.push_back(op_from(o));
 		std::string err = run_history(c["init"].str(), c["version"].str(), h, top, nullptr, nullptr, true);
@@ -435,6 +537,41 @@ int main(int argc, char** argv) {
 		return 0;
 	}
 
+	vf::PoolCfg pc;
+	pc.jobs = A.jobs;
+	pc.rundir = A.rundir;
+	pc.repo = A.repo;
+	pc.max_restarts_per_unit = 5000;
+	// typed phase
+	if (A.geti("typed", 1)) {
+		e1::install_hooks();
+		std::vector<std::string> types = e1::all_type_names();
+		std::vector<e1::VerCfg> vers = thorough ? e1::all_versions() : e1::game_versions();
+		struct TU { size_t t, v; };
+		std::vector<TU> tus;
+		for (size_t t = 0; t < types.size(); t++) for (size_t v = 0; v < vers.size(); v++) tus.push_back({t, v});
+		size_t nunits = std::min<size_t>(tus.size(), (size_t) A.jobs * 8);
+		vf::run_pool(nunits, pc,
+			[&](size_t u, const std::vector<std::string>& skips, long, Stats& st) {
+				std::set<std::string> skip(skips.begin(), skips.end());
+				for (size_t i = u; i < tus.size(); i += nunits) {
+					std::string key = types[tus[i].t] + "@" + vers[tus[i].v].name;
+					if (skip.count(key)) continue;
+					vf::set_step(key.c_str());
+					typed_unit(types[tus[i].t], vers[tus[i].v], st);
+				}
+			},
+			[&](size_t, const vf::CrashInfo& ci, const std::string& inflight, Stats& parent) -> std::string {
+				// a reader fault on the synthesised block rejects the input (BSGeometry); anything else is reported
+				J cj;
+				try { cj = J::parse(inflight); } catch (std::exception&) {}
+				if (!cj.has("op")) parent.add("typed_rejected_by_fault");
+				else parent.violation("typed:" + cj["typed"].str() + ":crash:" + ci.key(), "worker died (" + ci.cls + " in " + ci.frame + ") on " + inflight, cj);
+				return vf::g_last_step;
+			},
+			top);
+		top.add("states", (long long) top.cnt["typed_cases_with_references"]);
+	}
 	// initial states
 	std::vector<Node> frontier;
 	for (const char* ver : {"SSE", "OB"}) {
@@ -454,11 +591,6 @@ int main(int argc, char** argv) {
 		frontier = f2;
 	}
 	top.add("states", (long long) seen.size());
-	vf::PoolCfg pc;
-	pc.jobs = A.jobs;
-	pc.rundir = A.rundir;
-	pc.repo = A.repo;
-	pc.max_restarts_per_unit = 5000;
 	int depth_done = 0;
 	for (int depth = 1; depth <= maxdepth && !frontier.empty(); depth++) {
 		if (vf::deadline_passed()) { top.capped(vf::strf("deadline before depth %d", depth)); break; }
@@ -543,7 +675,9 @@ int main(int argc, char** argv) {
 						 "SetBlockOrder(every permutation), DeleteBlockByType(name, orphanedOnly), DeleteUnreferencedBlocks, PrettySortBlocks}, every argument over the full "
 						 "current index range, graphs of at most max_blocks blocks; state = history replayed on a fresh NifFile; canonical state = per slot (type, sorted "
 						 "target slots, number of empty references) + version; every transition is executed on the implementation and compared with the reference model, "
-						 "every reached state is saved raw and reloaded");
+						 "every reached state is saved raw and reloaded.  Typed phase: for every registered block type x version configuration a 4-block graph whose "
+						 "block 3 is read from an E1 tape with references alternating between two targets; 6 edits (delete target 1 / 2 / root, swap, reverse, sort); "
+						 "the references the block *serialises* (write-side reference hook, not the enumerators) must follow the renumbering induced by object identity");
 	vf::finish(top);
 	return 0;
 }
